@@ -60,11 +60,46 @@ def leak_only_vs_reference(prog, log):
     return False
 
 
+def genfn_declares(py_src, names):
+    """the names among `names` that a compiler-made generator function (_hy_anon_*) declares global/nonlocal"""
+    import ast
+    out = set()
+    try:
+        tree = ast.parse(py_src)
+    except SyntaxError:
+        # (the recorded source may be cut off) the declaration is the first statement of the generator function
+        import re
+        for m in re.finditer(r"def _hy_anon_\d+\(\):\n\s+(?:global|nonlocal) ([^\n]+)", py_src):
+            out.update(n.strip() for n in m.group(1).split(",") if n.strip() in names)
+        return out
+    for fn in ast.walk(tree):
+        if isinstance(fn, ast.FunctionDef) and fn.name.startswith("_hy_anon"):
+            for st in fn.body:
+                if isinstance(st, (ast.Nonlocal, ast.Global)):
+                    out.update(n for n in st.names if n in names)
+    return out
+
+
 def m_do_setv(rec, params):
     f = rec.get("input", {}).get("features", {})
     o = rec.get("observed", {})
-    return (rec.get("key") == "log-differs" and f.get("do_setv_own") and f.get("genfn") and f.get("kind") != "for"
-            and f.get("scope") != "class" and o.get("leak_only") is True)
+    if not (rec.get("key") == "log-differs" and f.get("do_setv_own") and f.get("genfn") and f.get("kind") != "for"
+            and f.get("scope") != "class"):
+        return False
+    if o.get("leak_only") is True:
+        return True
+    # second symptom of the same leak: the reference stops at a read of the form's variable before its first
+    # assignment (the variable is the form's own, so it is unbound there), while the generator function declares
+    # that very variable global/nonlocal because of the :do (setv v ..) and therefore reads the enclosing one
+    # and runs on.  Required: the reference ends "unbound", the run raised nothing at compile time, agrees with
+    # the reference on everything logged before that read, and the emitted generator function declares a
+    # :do-setv target global/nonlocal.
+    exp = rec.get("expected") or {}
+    log = o.get("log")
+    return (isinstance(exp, dict) and exp.get("exc") == "unbound" and o.get("compile_err") is None
+            and isinstance(log, list) and log[:len(exp.get("log") or [])] == (exp.get("log") or [])
+            and str(o.get("exception") or "").split(":")[0] not in ("NameError", "UnboundLocalError")
+            and bool(genfn_declares(o.get("python") or "", set(f.get("do_setv_targets") or []))))
 
 
 def m_nested_setx(rec, params):
